@@ -398,6 +398,9 @@ fn judge(res: &Value, d: &DefaultSide, replay: &Value) -> Outcome {
             f.push((format!("single-thread build: answers after policy changes differ from the reference (thread list {})", t), replay.clone()));
         }
     }
+    if !res["after_tag_switch_mismatches"].as_array().map(|a| a.is_empty()).unwrap_or(true) {
+        f.push((format!("after a tag switch (tagged rules freed and allocated again) threads querying the shared engine get another answer than one thread on a fresh engine under the same tags: {}", res["after_tag_switch_mismatches"][0]), replay.clone()));
+    }
     if let Some(e) = res.get("retag_error") {
         f.push((format!("exclusive phase after the run failed: {}", e), replay.clone()));
     } else if res["retag_digest"].as_str() != Some(d.retag.as_str()) {
@@ -533,7 +536,7 @@ fn main() {
 
     let mut cs = Cases::new(&a.out, "C19_Model");
     let mut sm = Summary::default();
-    sm.rule = "runs = seeded rule lists (rich: 40-120 network rules (one run in six: plus a fusion group of 450-700 wildcard rules sharing one token, optimised into one regex set), 80% regex patterns, exceptions/important/csp/generichide/removeparam/redirect/tag/domain options + cosmetic rules, optimised or not; pure: 6-16 option-free regex rules block/csp/generichide) x N threads x M queries over a pool of 8-40 requests (network, network-subset, csp, url_cosmetic_resources), discard policy cleanup_interval=1ns discard_unused_time=0 (switched to 500us at random), lock-taking noise ops; POLICY runs (no noise): the queries are cut into phases, phase k starts with set_regex_discard_policy of the k-th policy of a seeded script with cleanup_interval and discard_unused_time drawn from {0, 1 ns, 1 ms, 1 s, 1 h, u64::MAX/2 s, Duration::MAX} (full scripts: 50 phases, each field walks through all 49 ordered pairs = every shorter-after-longer, longer-after-shorter and same-twice; random scripts: 6-24 phases; a quarter of the phases set the policy twice in a row, a third once more between the setter's queries), walked sequentially on both builds (before the first and between later queries, through Engine (&mut) and Blocker (&self)) and on the shared engine where one thread in turn sets the policy while the others already run the phase's queries; every answer = sequential reference, no panic, no poisoning (other threads query afterwards), stuck calls reported by the watchdog with the operation; Coq cases only from pure runs (incl. pure policy runs): (a) big runs: first 48 tickets expanded to a random fine-grained schedule, (b) tiny runs (2-4 threads x 2-5 queries) replayed completely incl. final cache; non-trivial = at least two threads in the schedule and at least one regex rule consulted and at least one answer bit true".into();
+    sm.rule = "runs = seeded rule lists (rich: 40-120 network rules (one run in six: plus a fusion group of 450-700 wildcard rules sharing one token, optimised into one regex set), 80% regex patterns, exceptions/important/csp/generichide/removeparam/redirect/tag/domain options + cosmetic rules, optimised or not; pure: 6-16 option-free regex rules block/csp/generichide) x N threads x M queries over a pool of 8-40 requests (network, network-subset, csp, url_cosmetic_resources), discard policy cleanup_interval=1ns discard_unused_time=0 (switched to 500us at random), lock-taking noise ops, and after the run a tag switch (use_tags([]) then use_tags([t1,t2]): tagged rules freed and allocated again) followed by a second shared phase of fresh threads whose answers are compared with one thread on a fresh engine; POLICY runs (no noise): the queries are cut into phases, phase k starts with set_regex_discard_policy of the k-th policy of a seeded script with cleanup_interval and discard_unused_time drawn from {0, 1 ns, 1 ms, 1 s, 1 h, u64::MAX/2 s, Duration::MAX} (full scripts: 50 phases, each field walks through all 49 ordered pairs = every shorter-after-longer, longer-after-shorter and same-twice; random scripts: 6-24 phases; a quarter of the phases set the policy twice in a row, a third once more between the setter's queries), walked sequentially on both builds (before the first and between later queries, through Engine (&mut) and Blocker (&self)) and on the shared engine where one thread in turn sets the policy while the others already run the phase's queries; every answer = sequential reference, no panic, no poisoning (other threads query afterwards), stuck calls reported by the watchdog with the operation; Coq cases only from pure runs (incl. pure policy runs): (a) big runs: first 48 tickets expanded to a random fine-grained schedule, (b) tiny runs (2-4 threads x 2-5 queries) replayed completely incl. final cache; non-trivial = at least two threads in the schedule and at least one regex rule consulted and at least one answer bit true".into();
 
     let t_sync = Instant::now();
     let results = match run_sync(&exe, &plan, &a.out, "main", Duration::from_secs(if thorough { 6000 } else { 900 })) {
